@@ -156,3 +156,5 @@ int sz_replace1 (int a, int b, int r) {
   string s = str (a, "c") + str (b, "a"); mixed x = replace_string (s, "a", str (r, "x"));
   return stringp (x) ? strlen (x) : -1;
 }
+// regexp backtracking: "(a|aa)*b" against "a" * n + "cb" visits about 1.6^n nodes; matching is charged against the evaluation cost
+int rx (int n) { regexp (({ str (n, "a") + "cb" }), "(a|aa)*b"); return 0; }
